@@ -2,7 +2,7 @@
 interleavings of external posts, handler posts, defer/recall, next_rtc and complete_circuit."""
 import os, sys, json, re
 import charts, leanrun
-from charts import mhsm, Event, Diverged
+from charts import mhsm, Event, Diverged, signals, return_status
 
 SIGCODE = {"en": 0, "ex": 1, "in": 2}
 EFFK = {"F": 0, "L": 1, "D": 2, "R": 3, "S": 4}
@@ -311,6 +311,65 @@ def queue_oracle(run, focus, c, eff, cap, ops, real, cj):
     return hit
 
 
+def explore_same_objects(run, focus, n):
+    """the same few Event OBJECTS posted / deferred again and again (a program that keeps its events, a multi-shot post):
+    the pending queue and the deferred list are compared, by object identity, with two plain lists driven by the same operations"""
+    rng = run.rng
+    for _ in range(n):
+        instrumented = rng.random() < 0.5
+        log = []
+
+        def st(chart, e):
+            if e.signal_name in ("A", "B", "C"):
+                log.append(e)
+                return return_status.HANDLED
+            if e.signal in (signals.ENTRY_SIGNAL, signals.INIT_SIGNAL, signals.EXIT_SIGNAL):
+                return return_status.HANDLED
+            chart.temp.fun = chart.top
+            return return_status.SUPER
+        st.__name__ = "only"
+        hsm = mhsm.HsmWithQueues()
+        hsm.start_at(mhsm.spy_on(st) if instrumented else st)
+        pool = [Event(signal=nm) for nm in ("A", "B", "C")[:rng.randint(1, 3)]]
+        q, d = [], []
+        ops = []
+        bad = None
+        for _ in range(rng.randint(3, 14)):
+            r = rng.random()
+            k = rng.randrange(len(pool))
+            if r < 0.3:
+                ops.append(("defer", k)); hsm.defer(pool[k]); d.append(pool[k])
+            elif r < 0.5:
+                ops.append(("post_fifo", k)); hsm.post_fifo(pool[k]); q.append(pool[k])
+            elif r < 0.6:
+                ops.append(("post_lifo", k)); hsm.post_lifo(pool[k]); q.insert(0, pool[k])
+            elif r < 0.85:
+                ops.append(("recall",)); got = hsm.recall()
+                want = d.pop(0) if d else None
+                if want is not None:
+                    q.append(want)
+                if got is not want:
+                    bad = "recall() returned %s, expected %s" % (getattr(got, "signal_name", got), getattr(want, "signal_name", want))
+            else:
+                ops.append(("next_rtc",)); n0 = len(log); hsm.next_rtc()
+                want = q.pop(0) if q else None
+                gotl = log[n0:]
+                if (want is None and gotl) or (want is not None and (len(gotl) != 1 or gotl[0] is not want)):
+                    bad = "next_rtc dispatched %s, expected %s" % ([e.signal_name for e in gotl], getattr(want, "signal_name", None))
+            if bad is None and ([id(x) for x in hsm.queue] != [id(x) for x in q] or [id(x) for x in hsm.defer_queue] != [id(x) for x in d]):
+                bad = "after %s the queue is %s / deferred %s; two plain lists driven by the same operations hold %s / %s" % (
+                    ops[-1], [e.signal_name for e in hsm.queue], [e.signal_name for e in hsm.defer_queue],
+                    [e.signal_name for e in q], [e.signal_name for e in d])
+            if bad:
+                break
+        cj = {"what": "same-objects", "pool": len(pool), "instrumented": instrumented, "ops": [list(o) for o in ops]}
+        run.count("event objects reused (%s chart)" % ("instrumented" if instrumented else "un-instrumented"))
+        run.traces_validated += 1
+        if bad:
+            run.violate("%s/same-event-object" % focus, "%d event objects posted and deferred repeatedly: %s" % (len(pool), bad), cj)
+        run.case(cj, nontrivial=True)
+
+
 def deque_oracle(run, c, eff, cap, ops, real, hsm, cj):
     """C14: the dispatch order and the queue after every op must be those of a double-ended queue driven by
     the same operations (client ops and the handlers' own posts, taken from the handlers' invocation record)"""
@@ -389,6 +448,9 @@ def upto(cj, idx):
 
 def replay(case):
     cc = case.get("case", case)
+    if cc.get("what") == "same-objects":
+        print("sequence of operations on %d kept event objects (%s chart):" % (cc["pool"], "instrumented" if cc["instrumented"] else "un-instrumented"), cc["ops"])
+        return 0
     c, eff, cap, ops = from_json(cc)
     real, _, _ = run_real(c, eff, cap, ops, spied=cc.get("spied", True))
     model = leanrun.run_driver([encode(c, eff, cap, ops)])[0].split(" | ")
